@@ -502,3 +502,56 @@ Qed.
 
 Lemma accept_error_est t e s : accept_error t e (est s) = est (accept_error t e s).
 Proof. unfold accept_error. rewrite computed_est. destruct (computed t s); [reflexivity|apply complete_task_est]. Qed.
+
+Lemma resume1_est t c s : resume1 t c (est s) = (est (fst (resume1 t c s)), snd (resume1 t c s)).
+Proof.
+  unfold resume1. destruct c as [cid f|cid|cid var v]; autorewrite with est.
+  - destruct f as [|k e|k e]; try reflexivity. destruct (Nat.eqb _ k); reflexivity.
+  - reflexivity.
+  - reflexivity.
+Qed.
+
+Lemma pause1_est t c s : pause1 t c (est s) = (est (fst (pause1 t c s)), snd (pause1 t c s)).
+Proof.
+  unfold pause1. destruct c as [cid f|cid|cid var v]; autorewrite with est.
+  - destruct f as [|k e|k e]; try reflexivity. destruct (Nat.eqb _ k); reflexivity.
+  - reflexivity.
+  - reflexivity.
+Qed.
+
+Lemma fold_pair_est {X E} (f : st * E -> X -> st * E) l :
+  (forall s e x, f (est s, e) x = (est (fst (f (s, e) x)), snd (f (s, e) x))) ->
+  forall s e, fold_left f l (est s, e) = (est (fst (fold_left f l (s, e))), snd (fold_left f l (s, e))).
+Proof.
+  intros H. induction l as [|x l IH]; intros s e; cbn; [reflexivity|]. rewrite H.
+  destruct (f (s, e) x) as [s' e']. cbn [fst snd]. apply IH.
+Qed.
+
+Lemma resume_contexts_est t s : resume_contexts t (est s) = est (resume_contexts t s).
+Proof.
+  unfold resume_contexts. rewrite get_task_est. destruct (get_task t s) as [tk|]; cbn [option_map]; [|reflexivity].
+  autorewrite with est. destruct (tk_cact tk); [reflexivity|].
+  rewrite fold_pair_est.
+  - match goal with |- context [fold_left ?f ?l (?a, ?b)] => destruct (fold_left f l (a, b)) as [s1 [e|]] end; cbn [fst snd];
+      [apply accept_error_est|reflexivity].
+  - intros s0 e0 c. rewrite resume1_est. destruct (resume1 t c s0). reflexivity.
+Qed.
+
+Lemma pause_contexts_est t s : pause_contexts t (est s) = est (pause_contexts t s).
+Proof.
+  unfold pause_contexts. rewrite get_task_est. destruct (get_task t s) as [tk|]; cbn [option_map]; [|reflexivity].
+  autorewrite with est. destruct (negb (tk_cact tk)); [reflexivity|].
+  rewrite fold_pair_est.
+  - match goal with |- context [fold_left ?f ?l (?a, ?b)] => destruct (fold_left f l (a, b)) as [s1 [e|]] end; cbn [fst snd];
+      [apply accept_error_est|reflexivity].
+  - intros s0 e0 c. rewrite pause1_est. destruct (pause1 t c s0). reflexivity.
+Qed.
+
+Lemma complete_item_est h o s : complete_item h o (est s) = est (complete_item h o s).
+Proof.
+  unfold complete_item. rewrite get_est. destruct (get h s) as [f|]; cbn [option_map]; [|reflexivity].
+  cbn [efut f_out]. destruct (f_out f); [reflexivity|]. rewrite <- emit_est by reflexivity. rewrite <- put_est. reflexivity.
+Qed.
+
+Lemma schedule_batch_est k s : schedule_batch k (est s) = est (schedule_batch k s).
+Proof. unfold schedule_batch. rewrite get_batch_est. destruct (b_done _); [reflexivity|]. cbn [sb est]. destruct (existsb _ _); reflexivity. Qed.
